@@ -227,3 +227,21 @@ M("C14", "parse-error-cleared-early", "a816/parse/mzparser.py", "        error: 
   edits=[("a816/parse/mzparser.py", "        error: str | None\n\n        try:\n            tokens = scanner.scan(filename, program)", "        error: str | None\n\n        try:\n            error = None\n            tokens = scanner.scan(filename, program)"),
          ("a816/parse/mzparser.py", "        except ParserSyntaxError as e:\n            error = e.token.trace()", "        except ParserSyntaxError as e:\n            e.token.trace()")])
 M("C14", "log-level-neutral", PROG, "                    logger.error(str(e))\n                    return -1", "                    logger.error(\"assembly failed: %s\", e)\n                    return 1", neutral=True)
+
+# ------------------------------------------------------------------ C19
+M("C19", "lorom-not-frozen", SYM, "low_rom_bus.editable = False\n", "", "C19.R3")
+M("C19", "generate-map-on-shared-bus", CG, "    resolver.bus.map(\n", "    resolver.get_bus().map(\n", "C19.R3")
+M("C19", "guard-after-write", MAP, "        if self.editable is not True:\n            raise RuntimeError(\"Bus cannot be edited.\")\n\n        self.mappings[identifier] = Mapping(bank_range, address_range, mask, writeable)\n",
+  "        self.mappings[identifier] = Mapping(bank_range, address_range, mask, writeable)\n\n        if self.editable is not True:\n            raise RuntimeError(\"Bus cannot be edited.\")\n", "C19.R3")
+M("C19", "macro-defs-module-level", CG, "def code_gen(ast_nodes: list[AstNode], resolver: Resolver) -> GenNodes:\n    macro_definitions: MacroDefinitions = {}\n    return", "_MACROS: MacroDefinitions = {}\n\n\ndef code_gen(ast_nodes: list[AstNode], resolver: Resolver) -> GenNodes:\n    macro_definitions = _MACROS\n    return", "C19.R")
+M("C19", "macro-defs-default-arg", CG, "def code_gen(ast_nodes: list[AstNode], resolver: Resolver) -> GenNodes:\n    macro_definitions: MacroDefinitions = {}\n", "def code_gen(ast_nodes: list[AstNode], resolver: Resolver, macro_definitions: MacroDefinitions = {}) -> GenNodes:\n", "C19.R")
+M("C19", "table-patched-at-runtime", NODES, "        self.opcode = opcode.lower()\n", "        self.opcode = opcode.lower()\n        snes_opcode_table.setdefault(self.opcode, {})\n", "C19.R2")
+M("C19", "scanner-class-token-list", "a816/parse/scanner.py", "    filename: str | None = None\n", "    filename: str | None = None\n    errors: list[str] = []\n", "C19.R1")
+M("C19", "resolver-shares-root-scope", SYM, "        self.bus = Bus()\n", "        self.bus = BUS_MAPPING[RomType.low_rom]\n", "C19.R4")
+M("C19", "opcode-caches-width", CPU, "        value_size = guess_value_size(value_node, size)\n        opcode_byte = self.get_opcode_byte(value_size)\n", "        value_size = guess_value_size(value_node, size)\n        self.last_size = value_size\n        opcode_byte = self.get_opcode_byte(value_size)\n", "C19.R2")
+M("C19", "thaw-shared-bus", CG, "    attributes = node.args\n\n    resolver.bus.map(", "    attributes = node.args\n    resolver.get_bus().editable = True\n\n    resolver.bus.map(", "C19.R3")
+M("C19", "rom-type-on-class", PROG, "            self.resolver.rom_type = address_mapping[mapping]", "            Resolver.rom_type = address_mapping[mapping]", "C19.R2")
+M("C19", "alias-of-bus-mapping-mutated", SYM, "            bus = BUS_MAPPING[self.rom_type]\n", "            bus = BUS_MAPPING[self.rom_type]\n            bus.internal_id += 1\n", "C19.R2")
+M("C19", "lru-cache-on-eval-number", EXPRF, "def eval_number(number: str) -> int:", "@functools.lru_cache(maxsize=None)\ndef eval_number(number: str) -> int:", "C19.R2",
+  edits=[(EXPRF, "def eval_number(number: str) -> int:", "@functools.lru_cache(maxsize=None)\ndef eval_number(number: str) -> int:"), (EXPRF, "import ctypes\n", "import ctypes\nimport functools\n")])
+M("C19", "local-dict-neutral", CG, "    macro_definitions: MacroDefinitions = {}\n    return _code_gen", "    macro_definitions: MacroDefinitions = {}\n    macro_definitions.clear()\n    return _code_gen", neutral=True)
